@@ -210,6 +210,137 @@ func (m *Model) RunOwn(s *Sink, rule string) {
 				}
 			}
 		}
+		// the slot bodies of a use are written into the program only for the use that receives it: every store of a
+		// slot body (into the new program's placeholders) is made under "this use has no program yet" too
+		{
+			okBodies, nBodies := true, 0
+			bodyAt := ""
+			for _, b := range acBlocks {
+				for _, in := range b.Instrs {
+					st, ok := in.(*ssa.Store)
+					if !ok {
+						continue
+					}
+					fa, ok := st.Addr.(*ssa.FieldAddr)
+					if !ok || fieldName(fa.X.Type(), fa.Field) != "Body" || !strings.HasSuffix(derefTypeString(fa.X.Type()), "ast.SlotStmt") {
+						continue
+					}
+					nBodies++
+					under := false
+					for _, f := range expandFacts(factsAt(b)) {
+						bo, isBo := f.Cond.(*ssa.BinOp)
+						if !isBo || !isNilConst(bo.Y) || (bo.Op != token.EQL && bo.Op != token.NEQ) || (bo.Op == token.NEQ) == f.Holds {
+							continue
+						}
+						if _, bp, bok := pathOf(stripIface(bo.X)); bok && strings.HasSuffix(bp, ".Block") {
+							under = true
+						}
+					}
+					if !under {
+						// the store sits in a helper that fills the placeholders for a use handed in by its caller: the
+						// use the slot body comes from (the root of `X.Slots[i].Body`) must be one without a program there
+						// the uses the slot body may come from: the roots X of `X.Slots[i].Body`, through parameters to the callers
+						var uses []ssa.Value
+						lost := false
+						var findUses func(v ssa.Value, depth int)
+						findUses = func(v ssa.Value, depth int) {
+							cur := stripIface(v)
+							for d := 0; d < 10; d++ {
+								switch x := cur.(type) {
+								case *ssa.UnOp:
+									cur = x.X
+								case *ssa.IndexAddr:
+									cur = x.X
+								case *ssa.FieldAddr:
+									if fieldName(x.X.Type(), x.Field) == "Slots" {
+										uses = append(uses, x.X)
+										return
+									}
+									cur = x.X
+								case *ssa.Extract:
+									cur = x.Tuple
+								case *ssa.Next:
+									cur = x.Iter
+								case *ssa.Range:
+									cur = x.X
+								case *ssa.Parameter:
+									rs := m.resolveUp(x, nil, 0)
+									if depth > 3 || len(rs) == 0 {
+										lost = true
+										return
+									}
+									for _, r := range rs {
+										if _, still := r.(*ssa.Parameter); still {
+											lost = true
+											continue
+										}
+										findUses(r, depth+1)
+									}
+									return
+								default:
+									lost = true
+									return
+								}
+							}
+							lost = true
+						}
+						findUses(st.Val, 0)
+						useOK := func(r ssa.Value) bool {
+							if hi, isInstr := r.(ssa.Instruction); isInstr && blockNilFact(hi.Block(), r) {
+								return true
+							}
+							if c, isC := r.(*ssa.Call); isC && c.Call.StaticCallee() != nil && c.Call.StaticCallee().Blocks != nil {
+								allRet, nRet := true, 0
+								for _, hb := range c.Call.StaticCallee().Blocks {
+									ret, isRet := hb.Instrs[len(hb.Instrs)-1].(*ssa.Return)
+									if !isRet || len(ret.Results) < 1 || isNilConst(ret.Results[0]) {
+										continue
+									}
+									nRet++
+									if !blockNilFact(hb, ret.Results[0]) {
+										allRet = false
+									}
+								}
+								return allRet && nRet > 0
+							}
+							return false
+						}
+						all, n := !lost, 0
+						for _, u := range uses {
+							if par, isPar := u.(*ssa.Parameter); isPar {
+								rs := m.resolveUp(par, nil, 0)
+								if len(rs) == 0 {
+									all = false
+								}
+								for _, r := range rs {
+									n++
+									if !useOK(r) {
+										all = false
+									}
+								}
+								continue
+							}
+							n++
+							if !useOK(u) {
+								all = false
+							}
+						}
+						under = all && n > 0
+					}
+					if !under {
+						okBodies = false
+						bodyAt = m.InstrPos(st)
+					}
+				}
+			}
+			if nBodies > 0 {
+				if okBodies {
+					s.OK(rule, fnKey(ac)+"|slot bodies go into the program of the use they belong to", m.Pos(ac.Pos()), "every store of a slot body is dominated by comp.Block == nil of the use being served")
+				} else {
+					s.Violation(rule, fnKey(ac)+"|slot bodies go into the program of the use they belong to", bodyAt, "ApplyComponent writes slot bodies into the program at %s for a use that may already have its own program (the store is not under comp.Block == nil): an earlier use's slot bodies end up in the program of a later use, which then shows them in placeholders it passed nothing for", bodyAt)
+				}
+			}
+		}
 		if okSkip {
 			s.OK(rule, fnKey(ac)+"|serves a use that has no program yet", m.Pos(ac.Pos()), "the store is dominated by comp.Block == nil: repeated calls for one name serve successive uses")
 		} else {
